@@ -854,9 +854,57 @@ Proof.
   destruct (want_cases _ _ _ W) as [(_&D'&_)|(_&E)]; congruence.
 Qed.
 
-Lemma run_event_inv : forall e s, Inv s [] [] -> Inv (fst (run_event e s)) [] [].
+(* ------------------------------------------------------------------ job table untouched by queue moves *)
+
+Lemma deliver_jobs : forall c chs x s, s_jobs (fst (deliver c chs x s)) = s_jobs s.
+Proof. intros. unfold deliver. destruct (getjob (s_jobs s) x); reflexivity. Qed.
+
+Lemma pop_jobs : forall c chs s, s_jobs (fst (pop_or_block c chs s)) = s_jobs s.
 Proof.
-  intros e s I. destruct e as [c|c|ser]; cbn [run_event].
+  intros. unfold pop_or_block. cbv zeta. destruct (heads _ _) as [x|]; [|reflexivity].
+  destruct (getjob _ _); [|reflexivity]. rewrite deliver_jobs. reflexivity.
+Qed.
+
+Lemma shutdown_jobs : forall l s, s_jobs (shutdown_loop l s) = s_jobs s.
+Proof.
+  induction l as [|[i w] r IH]; intro s; cbn [shutdown_loop]; [reflexivity|].
+  destruct (is_done (s_jobs s) w); [apply IH|]. rewrite IH. destruct (pushjob_jobs w (set_requeued (w :: s_requeued s) s)) as [H _].
+  rewrite H. reflexivity.
+Qed.
+
+Lemma die_jobs : forall c s, s_jobs (fst (die c s)) = s_jobs s.
+Proof. intros. unfold die. cbv zeta. cbn [fst]. rewrite shutdown_jobs. reflexivity. Qed.
+
+Lemma run_event_jobs : forall e s, s_jobs (fst (run_event e s)) = s_jobs s.
+Proof.
+  intros e s. destruct e as [c|c|ser]; cbn [run_event].
+  - destruct (c_st (get_conn (s_conns s) c)) as [|chs [x|]|w|]; try reflexivity.
+    destruct (is_done (s_jobs s) x); [apply pop_jobs|apply deliver_jobs].
+  - destruct (c_st (get_conn (s_conns s) c)) as [|chs mb|w|]; try reflexivity; rewrite die_jobs; try reflexivity.
+    destruct mb as [x|]; [|reflexivity]. sf. destruct (is_done (s_jobs s) x); [reflexivity|].
+    destruct (pushjob_jobs x (set_waiters (remove_waiter c (s_waiters s)) s)) as [H _]. rewrite H. reflexivity.
+  - destruct (release ser (s_jobs s) (s_conns s)). destruct (getjob (s_jobs s) ser) as [j|]; [|reflexivity].
+    destruct (j_drop j && has_waiter ser (s_conns s)); reflexivity.
+Qed.
+
+Lemma run_events_jobs : forall es s, s_jobs (fst (run_events es s)) = s_jobs s.
+Proof.
+  induction es as [|e r IH]; intro s; cbn [run_events]; [reflexivity|].
+  pose proof (run_event_jobs e s) as H1. destruct (run_event e s) as [s1 o1]. cbn [fst] in H1.
+  specialize (IH s1). destruct (run_events r s1) as [s2 o2]. cbn [fst] in *. congruence.
+Qed.
+
+(* side invariant on the job table: nobody called dropjobs (Drop is outside the properties' alphabets,
+   see Model.v), and only finished jobs carry a dropdead deadline *)
+Definition Aux (s : state) : Prop :=
+  forall x j, getjob (s_jobs s) x = Some j -> j_drop j = false /\ (j_done j = false -> j_dl j = None).
+
+Lemma aux_same : forall s s', s_jobs s' = s_jobs s -> Aux s -> Aux s'.
+Proof. intros s s' H A x j E. rewrite H in E. exact (A x j E). Qed.
+
+Lemma run_event_inv : forall e s, Aux s -> Inv s [] [] -> Inv (fst (run_event e s)) [] [].
+Proof.
+  intros e s A I. destruct e as [c|c|ser]; cbn [run_event].
   - destruct (c_st (get_conn (s_conns s) c)) as [|chs [ser|]|w|] eqn:ES; try exact I.
     destruct (is_done (s_jobs s) ser) eqn:D.
     + apply pop_or_block_inv; auto.
@@ -898,7 +946,15 @@ Proof.
     + apply die_inv with (M := []); auto.
       * intros y n W. rewrite ES. reflexivity.
       * eapply not_waiter; eauto. intros chs' H. rewrite ES in H. discriminate.
-  - destruct (release ser (s_jobs s) (s_conns s)) as [cs o] eqn:ER. cbn [fst].
+  - destruct (release ser (s_jobs s) (s_conns s)) as [cs o] eqn:ER.
+    assert (EQ : fst (match getjob (s_jobs s) ser with
+                      | Some j => if j_drop j && has_waiter ser (s_conns s)
+                                  then (set_ids (id_del (s_ids s) (j_id j)) (set_conns cs s),
+                                        drop_outs (match id_lookup (s_ids s) (j_id j) with Some _ => true | None => false end) o)
+                                  else (set_conns cs s, o)
+                      | None => (set_conns cs s, o) end) = set_conns cs s).
+    { destruct (getjob (s_jobs s) ser) as [j|] eqn:Ej; [|reflexivity]. rewrite (proj1 (A _ _ Ej)). reflexivity. }
+    rewrite EQ. clear EQ.
     destruct (release_spec ser (s_jobs s) (s_conns s)) as (R1&R2&R3). rewrite ER in *. cbn [fst] in *.
     constructor; unfold locs; sf; try (destruct I; assumption).
     + intros y n W. rewrite R1. apply (inv_cons _ _ _ I); auto.
@@ -907,11 +963,12 @@ Proof.
     + intros c chs y Hs. destruct (R2 c) as [_ [H2|[H2 _]]]; [|congruence]. rewrite H2 in Hs. apply (inv_mb _ _ _ I) in Hs. exact Hs.
 Qed.
 
-Lemma run_events_inv : forall es s, Inv s [] [] -> Inv (fst (run_events es s)) [] [].
+Lemma run_events_inv : forall es s, Aux s -> Inv s [] [] -> Inv (fst (run_events es s)) [] [].
 Proof.
-  induction es as [|e r IH]; intros s I; cbn [run_events]; [exact I|].
-  pose proof (run_event_inv e s I) as I1. destruct (run_event e s) as [s1 o1]. cbn [fst] in I1.
-  specialize (IH s1 I1). destruct (run_events r s1) as [s2 o2]. exact IH.
+  induction es as [|e r IH]; intros s A I; cbn [run_events]; [exact I|].
+  pose proof (run_event_inv e s A I) as I1. pose proof (run_event_jobs e s) as J1.
+  destruct (run_event e s) as [s1 o1]. cbn [fst] in I1, J1.
+  specialize (IH s1 (aux_same _ _ J1 A) I1). destruct (run_events r s1) as [s2 o2]. exact IH.
 Qed.
 
 (* ------------------------------------------------------------------ ops on an idle connection *)
@@ -1035,7 +1092,7 @@ Proof.
   intros ch prio name tmo s I. unfold push.
   set (ser := s_count s + 1).
   set (i := match name with Some n => JName n | None => JAuto ser end).
-  set (j := mkJob ser i ch prio (s_now s + match tmo with Some t => t | None => 120 end) false ENone None None 3600).
+  set (j := mkJob ser i ch prio (s_now s + match tmo with Some t => t | None => 120 end) false ENone None None 3600 None false).
   assert (FRESH : (forall y jy, getjob (s_jobs s) y = Some jy -> j_done jy = false -> j_id jy <> i) ->
                   Inv (fst (pushjob ser (set_jobs (j :: s_jobs s) (set_count ser s)), i)) [] []).
   { intro NEW. cbn [fst].
@@ -1095,7 +1152,7 @@ Qed.
 
 Lemma setinfo_tab_le : forall js ser v,
   tab_le js (setjob ser (fun j => mkJob (j_serial j) (j_id j) (j_chan j) (j_prio j) (j_timeout j) (j_done j)
-                                         (j_err j) (j_res j) (Some v) (j_ttl j)) js).
+                                         (j_err j) (j_res j) (Some v) (j_ttl j) (j_dl j) (j_drop j)) js).
 Proof.
   intros js ser v y. rewrite getjob_setjob by (intros; cbn; assumption).
   destruct (y =? ser) eqn:E.
@@ -1103,15 +1160,142 @@ Proof.
   - destruct (getjob js y); auto.
 Qed.
 
-Lemma step_inv : forall s o, Inv s [] [] -> Inv (fst (step s o)) [] [].
+(* ---- Drop / Watchdog / Advance *)
+
+Definition nodrop_op (o : op) : bool := match o with Drop _ => false | _ => true end.
+Definition nodrop (h : list op) : bool := forallb nodrop_op h.
+
+Lemma id_lookup_del_other : forall ids i k, jid_eqb i k = false -> id_lookup (id_del ids i) k = id_lookup ids k.
 Proof.
-  intros s o I. destruct o as [ch prio name tmo|c chs| |c i res e|c js|dt|c|k|c i|i|i v|]; cbn [step].
+  induction ids as [|[a w] r IH]; intros i k H; cbn [id_del id_lookup]; [reflexivity|].
+  destruct (jid_eqb a i) eqn:E1.
+  - apply jid_eqb_eq in E1. subst a. rewrite H. reflexivity.
+  - cbn [id_lookup]. destruct (jid_eqb a k); [reflexivity|apply IH; exact H].
+Qed.
+
+(* forgetting the id of a FINISHED job keeps the invariant *)
+Lemma inv_del_done : forall s L R i ser, Inv s L R ->
+  id_lookup (s_ids s) i = Some ser -> is_done (s_jobs s) ser = true ->
+  Inv (set_ids (id_del (s_ids s) i) s) L R.
+Proof.
+  intros s L R i ser I El D. constructor; unfold locs; sf; try (destruct I; assumption).
+  intros x j E Dj O. pose proof (inv_addr _ _ _ I x j E Dj O) as H.
+  destruct (jid_eqb i (j_id j)) eqn:Ei.
+  - apply jid_eqb_eq in Ei. subst i. rewrite El in H. inversion H; subst ser.
+    unfold is_done in D. rewrite E in D. congruence.
+  - rewrite id_lookup_del_other by exact Ei. exact H.
+Qed.
+
+Lemma set_dl_tab_le : forall js ser d, tab_le js (setjob ser (set_dl d) js).
+Proof.
+  intros js ser d y. rewrite getjob_setjob by (intros; cbn; assumption).
+  destruct (y =? ser) eqn:E.
+  - apply N.eqb_eq in E. subst y. destruct (getjob js ser); cbn; auto.
+  - destruct (getjob js y); auto.
+Qed.
+
+Lemma aux_set_dl : forall s ser j d, Aux s -> getjob (s_jobs s) ser = Some j -> j_done j = true ->
+  Aux (set_jobs (setjob ser (set_dl d) (s_jobs s)) s).
+Proof.
+  intros s ser j d A Ej Dj x jx. sf. rewrite getjob_setjob by (intros; cbn; assumption).
+  destruct (x =? ser) eqn:E.
+  - apply N.eqb_eq in E. subst x. rewrite Ej. cbn. intro H. inversion H; subst jx. cbn.
+    split; [exact (proj1 (A _ _ Ej))|]. intro D0. congruence.
+  - apply A.
+Qed.
+
+Lemma dropdead_loop_good : forall l s, Aux s -> Inv s [] [] ->
+  Aux (dropdead_loop l s) /\ Inv (dropdead_loop l s) [] [].
+Proof.
+  induction l as [|i r IH]; intros s A I; cbn [dropdead_loop]; [split; assumption|].
+  destruct (id_lookup (s_ids s) i) as [ser|] eqn:El; [|apply IH; assumption].
+  destruct (getjob (s_jobs s) ser) as [j|] eqn:Ej; [|apply IH; assumption].
+  cbv zeta.
+  set (expired := match j_dl j with Some d => negb (d =? 0) && (d <? s_now s) | None => false end).
+  set (s1 := if expired then set_ids (id_del (s_ids s) i) s else s).
+  assert (J1 : s_jobs s1 = s_jobs s) by (unfold s1; destruct expired; reflexivity).
+  assert (A1 : Aux s1) by (eapply aux_same; eauto).
+  assert (I1 : Inv s1 [] []).
+  { unfold s1. destruct expired eqn:EX; [|exact I]. eapply inv_del_done; eauto.
+    unfold is_done. rewrite Ej. destruct (j_done j) eqn:Dj; [reflexivity|].
+    unfold expired in EX. rewrite (proj2 (A _ _ Ej) Dj) in EX. discriminate. }
+  destruct (j_done j && negb (dl_truthy (j_dl j))) eqn:EC; [|apply IH; assumption].
+  apply andb_true_iff in EC. destruct EC as [Dj _]. rewrite J1. apply IH.
+  - intros x jx. sf. intro E. apply (aux_set_dl s ser j (Some (s_now s + j_ttl j)) A Ej Dj x jx). sf. exact E.
+  - eapply inv_tab_le; [exact I1| |reflexivity|reflexivity|reflexivity|reflexivity|reflexivity].
+    sf. rewrite J1. apply set_dl_tab_le.
+Qed.
+
+(* ---- the side invariant Aux *)
+
+Lemma aux_mark : forall x u s, (forall j, j_dl (u j) = j_dl j) -> Aux s -> Aux (mark_finished x u s).
+Proof.
+  intros x u s Hu A. unfold mark_finished. destruct (getjob (s_jobs s) x) as [j|] eqn:E; [|exact A].
+  destruct (j_done j) eqn:D; [exact A|]. intros y jy. sf.
+  rewrite getjob_setjob by (intros; cbn; eapply getjob_serial; eauto).
+  destruct (y =? x) eqn:Eyx.
+  - apply N.eqb_eq in Eyx. subst y. rewrite E. cbn. intro H. inversion H; subst jy. cbn.
+    split; [exact (proj1 (A _ _ E))|discriminate].
+  - apply A.
+Qed.
+
+Lemma aux_killjobs : forall js s, Aux s -> Aux (killjobs js s).
+Proof.
+  induction js as [|i r IH]; intros s A; cbn [killjobs]; [exact A|].
+  destruct (id_lookup (s_ids s) i); [|apply IH; exact A]. apply IH. apply aux_mark; [reflexivity|exact A].
+Qed.
+
+Lemma aux_timeouts : forall q s, Aux s -> Aux (timeouts_loop q s).
+Proof.
+  induction q as [|x r IH]; intros s A; cbn [timeouts_loop]; [exact A|].
+  destruct (is_done (s_jobs s) (snd (snd x))); [apply IH; exact A|].
+  destruct (s_now s <? fst x); [exact A|]. apply IH. apply aux_mark; [reflexivity|exact A].
+Qed.
+
+Lemma step_aux : forall s o, nodrop_op o = true -> Aux s -> Inv s [] [] -> Aux (fst (step s o)).
+Proof.
+  intros s o ND A I.
+  destruct o as [ch prio name tmo|c chs| |c i res e|c js|dt|c|k|c i|i|i v| |dt|js|]; cbn [step]; try discriminate ND.
+  - assert (F : forall j0, j_drop j0 = false -> j_dl j0 = None ->
+                Aux (pushjob (s_count s + 1) (set_jobs (j0 :: s_jobs s) (set_count (s_count s + 1) s)))).
+    { intros j0 H1 H2. eapply aux_same; [apply pushjob_jobs|]. intros x jx. sf. cbn [getjob].
+      destruct (j_serial j0 =? x); [intro H; injection H as H0; rewrite <- H0; auto|apply A]. }
+    unfold push. destruct name as [n|]; [|apply F; reflexivity].
+    destruct (id_lookup (s_ids s) (JName n)) as [ser|]; [|apply F; reflexivity].
+    destruct (getjob (s_jobs s) ser) as [j0|]; [|apply F; reflexivity].
+    destruct (err_is_killed (j_err j0)); [apply F; reflexivity|exact A].
+  - destruct (is_idle c s); [|exact A]. eapply aux_same; [apply pop_jobs|exact A].
+  - eapply aux_same; [apply run_events_jobs|]. exact A.
+  - destruct (is_idle c s); [|exact A]. destruct (id_lookup (s_ids s) i); [|exact A]. cbn [fst].
+    eapply aux_same; [|apply aux_mark; [|exact A]]; [reflexivity|reflexivity].
+  - destruct (is_idle c s); [|exact A]. cbn [fst]. eapply aux_same; [|apply aux_killjobs; exact A]. reflexivity.
+  - cbn [fst]. unfold handletimeouts. eapply aux_same; [|apply (aux_timeouts (s_tq s) (set_now (s_now s + dt) s)); exact A]. reflexivity.
+  - destruct (c_st (get_conn (s_conns s) c)); exact A.
+  - exact A.
+  - destruct (is_idle c s); [|exact A]. destruct (id_lookup (s_ids s) i) as [ser|]; [|exact A].
+    destruct (getjob (s_jobs s) ser) as [j|]; [|exact A].
+    destruct (j_done j && negb (done_pending ser (s_hub s))); [destruct (j_drop j)|]; exact A.
+  - exact A.
+  - destruct (id_lookup (s_ids s) i) as [ser|]; [|exact A]. cbn [fst]. intros x jx. sf.
+    rewrite getjob_setjob by (intros; cbn; assumption). destruct (x =? ser) eqn:E.
+    + apply N.eqb_eq in E. subst x. destruct (getjob (s_jobs s) ser) as [j|] eqn:Ej; cbn; [|discriminate].
+      intro H. inversion H; subst jx. cbn. exact (A _ _ Ej).
+    + apply A.
+  - exact A.
+  - exact A.
+  - cbn [fst]. unfold dropdead. apply dropdead_loop_good; assumption.
+Qed.
+
+Lemma step_inv : forall s o, nodrop_op o = true -> Aux s -> Inv s [] [] -> Inv (fst (step s o)) [] [].
+Proof.
+  intros s o ND A I.
+  destruct o as [ch prio name tmo|c chs| |c i res e|c js|dt|c|k|c i|i|i v| |dt|js|]; cbn [step]; try discriminate ND.
   - pose proof (push_inv ch prio name tmo s I) as H. destruct (push ch prio name tmo s) as [s1 i]. exact H.
   - destruct (is_idle c s) eqn:EI; [|exact I]. apply is_idle_st in EI.
     apply pop_or_block_inv; auto.
     + intros y n W. rewrite EI. reflexivity.
     + intros chs' H. rewrite EI in H. discriminate.
-  - apply run_events_inv. eapply inv_same; eauto.
+  - apply run_events_inv; [exact A|]. eapply inv_same; eauto.
   - destruct (is_idle c s) eqn:EI; [|exact I]. apply is_idle_st in EI.
     destruct (id_lookup (s_ids s) i) as [ser|] eqn:El; [|exact I]. cbn [fst].
     set (u := fun j => upd_finish res e (if err_truthy e then N_min 10 (j_ttl j) else j_ttl j) j).
@@ -1130,14 +1314,20 @@ Proof.
   - cbn [fst]. eapply inv_same; eauto.
   - destruct (is_idle c s) eqn:EI; [|exact I]. apply is_idle_st in EI.
     destruct (id_lookup (s_ids s) i) as [ser|]; [|exact I].
-    destruct (getjob (s_jobs s) ser) as [j|]; [|exact I].
-    destruct (j_done j && negb (done_pending ser (s_hub s))); [exact I|]. cbn [fst].
+    destruct (getjob (s_jobs s) ser) as [j|] eqn:Ej; [|exact I].
+    destruct (j_done j && negb (done_pending ser (s_hub s))); [rewrite (proj1 (A _ _ Ej)); exact I|]. cbn [fst].
     apply conn_update_inv; auto; [right; eexists; reflexivity|apply incl_refl].
   - exact I.
   - destruct (id_lookup (s_ids s) i) as [ser|]; [|exact I]. cbn [fst].
     eapply inv_tab_le; eauto. sf. apply setinfo_tab_le.
   - exact I.
+  - cbn [fst]. eapply inv_same; eauto.
+  - cbn [fst]. unfold dropdead. apply dropdead_loop_good; assumption.
 Qed.
+
+Lemma step_good : forall s o, nodrop_op o = true -> Aux s /\ Inv s [] [] ->
+  Aux (fst (step s o)) /\ Inv (fst (step s o)) [] [].
+Proof. intros s o ND [A I]. split; [apply step_aux|apply step_inv]; assumption. Qed.
 
 Lemma inv_init : Inv init [] [].
 Proof.
@@ -1146,11 +1336,26 @@ Proof.
   - constructor.
 Qed.
 
-Lemma run_inv : forall h s, Inv s [] [] -> Inv (run h s) [] [].
-Proof. intros h s. apply (invariant_reachable (fun s => Inv s [] [])). apply step_inv. Qed.
+Lemma aux_init : Aux init.
+Proof. intros x j H. discriminate H. Qed.
 
-Lemma reachable_inv : forall h, Inv (run h init) [] [].
-Proof. intro h. apply run_inv. apply inv_init. Qed.
+(* histories without Drop (every history over the alphabets of C16/C17/C18, plus Advance and Watchdog) *)
+Lemma run_good : forall h s, nodrop h = true -> Aux s -> Inv s [] [] -> Aux (run h s) /\ Inv (run h s) [] [].
+Proof.
+  induction h as [|o h IH]; intros s ND A I; [split; assumption|].
+  cbn [nodrop forallb] in ND. apply andb_true_iff in ND. destruct ND as [N1 N2].
+  change (run (o :: h) s) with (run h (fst (step s o))).
+  apply IH; [exact N2|apply step_aux; assumption|apply step_inv; assumption].
+Qed.
+
+Lemma run_inv : forall h s, nodrop h = true -> Aux s -> Inv s [] [] -> Inv (run h s) [] [].
+Proof. intros h s ND A I. apply (run_good h s ND A I). Qed.
+
+Lemma reachable_inv : forall h, nodrop h = true -> Inv (run h init) [] [].
+Proof. intros h ND. apply run_inv; [exact ND|apply aux_init|apply inv_init]. Qed.
+
+Lemma reachable_aux : forall h, nodrop h = true -> Aux (run h init).
+Proof. intros h ND. apply (run_good h init ND aux_init inv_init). Qed.
 
 (* ------------------------------------------------------------------ C16 statements *)
 
@@ -1158,14 +1363,14 @@ Proof. intro h. apply run_inv. apply inv_init. Qed.
 Definition in_queues (s : state) (x : N) : nat := occ_qs x (s_queues s).
 Definition with_workers (s : state) (x : N) : nat := occ_conns x (s_conns s).
 
-Lemma conservation : forall h x j,
+Lemma conservation : forall h x j, nodrop h = true ->
   let s := run h init in
   getjob (s_jobs s) x = Some j -> j_done j = false ->
   (in_queues s x + with_workers s x = 1)%nat /\
   id_lookup (s_ids s) (j_id j) = Some x /\
   (forall k q p, In (k, q) (s_queues s) -> In (p, x) q -> k = j_chan j /\ p = j_prio j).
 Proof.
-  intros h x j s E D. pose proof (reachable_inv h) as I. fold s in I.
+  intros h x j ND s E D. pose proof (reachable_inv h ND) as I. fold s in I.
   split; [|split].
   - pose proof (inv_cons _ _ _ I x 1%nat (want_undone _ _ _ E D)) as H. unfold locs in H. cbn [occ] in H.
     unfold in_queues, with_workers. lia.
@@ -1175,25 +1380,25 @@ Qed.
 
 (* nothing but accepted jobs is ever queued or handed out, a registered waiter has an empty
    mailbox (so a hand-off never overwrites a job), and no connection is registered twice *)
-Lemma no_phantoms : forall h x,
+Lemma no_phantoms : forall h x, nodrop h = true ->
   let s := run h init in
   getjob (s_jobs s) x = None -> (in_queues s x + with_workers s x = 0)%nat.
 Proof.
-  intros h x s E. pose proof (reachable_inv h) as I. fold s in I.
+  intros h x ND s E. pose proof (reachable_inv h ND) as I. fold s in I.
   pose proof (inv_cons _ _ _ I x 0%nat) as H. unfold want in H. rewrite E in H. specialize (H eq_refl).
   unfold locs in H. cbn [occ] in H. unfold in_queues, with_workers. lia.
 Qed.
 
-Lemma waiters_empty_mailbox : forall h c chs,
+Lemma waiters_empty_mailbox : forall h c chs, nodrop h = true ->
   let s := run h init in
   In (c, chs) (s_waiters s) -> c_st (get_conn (s_conns s) c) = BPull chs None.
-Proof. intros h c chs s. apply (inv_wait _ _ _ (reachable_inv h)). Qed.
+Proof. intros h c chs ND s. apply (inv_wait _ _ _ (reachable_inv h ND)). Qed.
 
-Lemma mailbox_eligible : forall h c chs x,
+Lemma mailbox_eligible : forall h c chs x, nodrop h = true ->
   let s := run h init in
   c_st (get_conn (s_conns s) c) = BPull chs (Some x) ->
   exists j, getjob (s_jobs s) x = Some j /\ eligible (j_chan j) chs.
-Proof. intros h c chs x s. apply (inv_mb _ _ _ (reachable_inv h)). Qed.
+Proof. intros h c chs x ND s. apply (inv_mb _ _ _ (reachable_inv h ND)). Qed.
 
 Definition example_history : list op :=
   [StartPull 1 [0]; StartPull 2 []; Add 0 1 None None; Add 0 0 (Some 0) None; Choice 1; Add 1 0 None (Some 5);
